@@ -158,9 +158,24 @@ def bad_cases(draw):
     n = st.integers(0, 99).map(str)
     kind = draw(st.sampled_from([
         'empty', 'unit_only', 'order', 'dup', 'frac_larger', 'iso_ym', 'sign', 'iso_lower',
-        'iso_no_t', 'two_marks', 'garbage', 'iso_ws', 'neg_time']))
+        'iso_no_t', 'two_marks', 'garbage', 'iso_ws', 'neg_time', 'split_number', 'split_number']))
     a, b = draw(n), draw(n)
-    if kind == 'empty':
+    first = None
+    if kind == 'split_number':
+        # a valid string is converted first, then a twin with white space inside a number or inside
+        # an ISO string (nothing remembered from the first call may make the second one pass)
+        big = str(draw(st.integers(10, 9999)))
+        cut = draw(st.integers(1, len(big) - 1))
+        gap = draw(st.sampled_from([' ', '  ', '\t']))
+        u = draw(st.sampled_from('dhms'))
+        first, s = draw(st.sampled_from([
+            (f"{big}{u}", f"{big[:cut]}{gap}{big[cut:]}{u}"),
+            (f"{a}h{big}s", f"{a}h{big[:cut]}{gap}{big[cut:]}s"),
+            (f"{a}.5s", f"{a}.{gap}5s"), (f"{a}.5s", f"{a}{gap}.5s"), (f"{a},25", f"{a},{gap}25"),
+            (f"PT{a}H{b}M", f"PT{a}H{gap}{b}M"), (f"P{a}DT{b}S", f"P{a}D{gap}T{b}S"),
+            (f"PT{big}S", f"PT{big[:cut]}{gap}{big[cut:]}S"), (f"PT{a}H", f"P{gap}T{a}H"),
+        ]))
+    elif kind == 'empty':
         s = draw(st.sampled_from(['', ' ', '   ', '\t', '\n']))
     elif kind == 'unit_only':
         s = draw(st.sampled_from(['h', 'd', 'm', 's', 'D', ' h ', 'dh', 'P', 'PT', ' P ', 'T']))
@@ -209,7 +224,10 @@ def bad_cases(draw):
         s = draw(st.sampled_from([f"P {a}D", f"P{a}D T{b}H", f"P{a} D", f"PT {b}S", f"P{a}DT{b} H"]))
     else:
         s = draw(st.sampled_from([f"{a}h -{b}m", f"{a}m-1s"]))
-    return {'k': 'bad', 's': s, 'why': kind}
+    case = {'k': 'bad', 's': s, 'why': kind}
+    if first is not None:
+        case['first'] = first
+    return case
 
 
 def strategy(tier):
@@ -348,6 +366,11 @@ def execute(case):
     elif k == 'bad':
         text = case['s']
         for func in (utils.convert, utils.time_period):
+            if 'first' in case:
+                try:
+                    func(case['first'])
+                except Exception as err:
+                    res.fail('C19.valid_refused', f"{func.__name__}({case['first']!r}) raised {err!r}")
             try:
                 got = func(text)
             except ValueError:
